@@ -562,7 +562,8 @@ class SCRun:
         if all(self.eff(chain, q) is False for q in range(enter_seq, post["seq"] + 1)):
             if task.cancelling() - self.native_pending(task) != c0:
                 self.v("C05.cancelling", f"task {tid}: after leaving scope {sid} (no enclosing scope effectively cancelled) "
-                                         f"Task.cancelling()={task.cancelling()} but it was {c0} on entry")
+                                         f"Task.cancelling()={task.cancelling()} with {self.native_pending(task)} native "
+                                         f"cancel request(s) of the program itself pending, but it was {c0} on entry")
             else:
                 self.probes["cancelling_restored"] += 1
         if escaped is not None:
